@@ -676,8 +676,12 @@ impl Emit for ModuleFunctions {
             ));
         }
         cx.code_transform.function_ranges.sort_by_key(|i| i.0);
-        // FIXME: code section start in DWARF debug information expects 2 bytes before actual code section start.
-        cx.code_transform.code_section_start = code_section_start_offset - 2;
+        // Code addresses in DWARF are relative to the start of the code
+        // section's contents, i.e. to the LEB128-encoded function count that
+        // precedes the first function entry.
+        let function_count_leb_len =
+            leb128::write::unsigned(&mut Vec::new(), wasm_code_section.len() as u64).unwrap();
+        cx.code_transform.code_section_start = code_section_start_offset - function_count_leb_len;
         cx.code_transform.instruction_map = instruction_map.into_iter().collect();
     }
 }
